@@ -547,13 +547,23 @@ Definition gibbs_ok (tol : Q) (o : gobs) (r : gstate * list Q * list event) : bo
   | _, _ => false
   end.
 
+(* the pre-state must itself be well formed: the stored log-probability of the
+   current point is the tempered log-density of that point (the C03 invariant the
+   C01 decision theorems rest on) *)
+Definition pre_ok (tol : Q) (P : qpost) (beta : Q) (x : list Q) (p : Q) : bool :=
+  Qclose tol p (tlogp (qlogp P) beta x).
+
+Definition guard (b : bool) (c : nat) : nat := if b then c else 1%nat.
+
 Definition check_gibbs (tol : Q) (P : qpost) (beta : Q) (pars : list gparam) (x : list Q) (p : Q)
            (tape : list Q) (o : gobs) : nat :=
-  code_of (gibbs_step (qlogp P) beta (mkGS pars [x] [p]) tape) (gibbs_ok tol o).
+  guard (pre_ok tol P beta x p)
+        (code_of (gibbs_step (qlogp P) beta (mkGS pars [x] [p]) tape) (gibbs_ok tol o)).
 
 Definition check_metro (tol : Q) (P : qpost) (beta : Q) (pars : list gparam) (x : list Q) (p : Q)
            (tape : list Q) (o : gobs) : nat :=
-  code_of (metro_step (qlogp P) beta (mkGS pars [x] [p]) tape) (gibbs_ok tol o).
+  guard (pre_ok tol P beta x p)
+        (code_of (metro_step (qlogp P) beta (mkGS pars [x] [p]) tape) (gibbs_ok tol o)).
 
 Definition pca_ok (tol : Q) (o : gobs) (r : pstate * list Q * list event) : bool :=
   let '(s, tape, ev) := r in
@@ -566,7 +576,8 @@ Definition pca_ok (tol : Q) (o : gobs) (r : pstate * list Q * list event) : bool
 
 Definition check_pca (tol : Q) (P : qpost) (beta : Q) (dirs : list (list Q)) (sigmas : list Q)
            (bounds : option (list Q * list Q)) (x : list Q) (p : Q) (tape : list Q) (o : gobs) : nat :=
-  code_of (pca_step (qlogp P) beta (mkPS dirs sigmas bounds [x] [p]) tape) (pca_ok tol o).
+  guard (pre_ok tol P beta x p)
+        (code_of (pca_step (qlogp P) beta (mkPS dirs sigmas bounds [x] [p]) tape) (pca_ok tol o)).
 
 Record hobs := mkHO { ho_t : list Q; ho_p : Q; ho_events : list event; ho_leaps : nat }.
 
@@ -581,8 +592,9 @@ Definition hmc_ok (tol : Q) (o : hobs) (r : hstate * list Q * list event) : bool
 
 Definition check_hmc (tol : Q) (P : qpost) (beta : Q) (m : mass) (eps : Q) (steps max_attempts : nat)
            (bounds : option (list Q * list Q)) (t0 : list Q) (p : Q) (tape : list Q) (o : hobs) : nat :=
-  code_of (hmc_step (qlogp P) beta (qgrad P) max_attempts
-                    (mkHS m eps steps bounds [t0] [p] [0%nat]) tape) (hmc_ok tol o).
+  guard (pre_ok tol P beta t0 p)
+        (code_of (hmc_step (qlogp P) beta (qgrad P) max_attempts
+                           (mkHS m eps steps bounds [t0] [p] [0%nat]) tape) (hmc_ok tol o)).
 
 Record eobs := mkEO { eo_pos : list (list Q); eo_probs : list Q; eo_events : list event;
                       eo_failed : nat }.
@@ -592,8 +604,20 @@ Definition ens_ok (tol : Q) (o : eobs) (r : estate * list Q * list event) : bool
   mclose tol (es_pos s) (eo_pos o) && vclose tol (es_probs s) (eo_probs o) &&
   evclose tol ev (eo_events o) && Nat.eqb (es_failed s) (eo_failed o) && Nat.eqb (length tape) 0.
 
-Definition check_ens (pinned : bool) (tol : Q) (P : qpost) (s : estate) (tape : list Q) (o : eobs) : nat :=
-  code_of (ens_iteration (qlogp P) pinned s tape) (ens_ok tol o).
+(* the cached stretch-sampling constants must be the ones of the sampler's alpha:
+   x_lwr = sqrt(2/alpha), x_lwr + x_width = sqrt(2 alpha)  (compared through their squares) *)
+Definition stretch_consts_ok (alpha : Q) (s : estate) : bool :=
+  let tol := 1 # 1000000000000 in
+  Qle_bool 0 (es_xlwr s) && Qle_bool 0 (es_xwidth s) &&
+  Qclose tol (es_xlwr s * es_xlwr s) (2 / alpha) &&
+  Qclose tol ((es_xlwr s + es_xwidth s) * (es_xlwr s + es_xwidth s)) (2 * alpha).
+
+Definition ens_pre_ok (tol : Q) (P : qpost) (s : estate) : bool :=
+  vclose tol (es_probs s) (map (elogp (qlogp P)) (es_pos s)).
+
+Definition check_ens (pinned : bool) (tol : Q) (P : qpost) (alpha : Q) (s : estate) (tape : list Q) (o : eobs) : nat :=
+  guard (stretch_consts_ok alpha s && ens_pre_ok tol P s)
+        (code_of (ens_iteration (qlogp P) pinned s tape) (ens_ok tol o)).
 
 (* indices of cases whose code is c *)
 Fixpoint with_code (c : nat) (codes : list nat) (i : nat) : list nat :=
